@@ -76,7 +76,18 @@ class Oracle(_REAL_RANDOM_CLASS):
         else:
             super().seed(0)
 
+    def _note(self):
+        # which generator draws: ('gdraw', position) is logged for the first
+        # draw of every run of draws on the process-wide generator (the runs
+        # are separated by seed events), private instances are only counted
+        xp = self._xp
+        if getattr(self, '_private', False):
+            xp.private_draws += 1
+        elif not xp.events or xp.events[-1][0] != 'gdraw':
+            xp.events.append(('gdraw', len(xp.trace)))
+
     def random(self):
+        self._note()
         return self.FLOATS[self._xp.choose(2, 'random')]
 
     def getrandbits(self, k):
@@ -84,11 +95,13 @@ class Oracle(_REAL_RANDOM_CLASS):
             raise ValueError('number of bits must be non-negative')
         if k > 5:
             raise Unsupported('getrandbits(%d) is outside the explorer alphabet' % k)
+        self._note()
         return self._xp.choose(1 << k, 'bits')
 
     def _randbelow(self, n):
         if n <= 0:
             raise ValueError('empty range')
+        self._note()
         return self._xp.choose(n, 'below')
 
     def getstate(self):
@@ -99,6 +112,29 @@ class Oracle(_REAL_RANDOM_CLASS):
 
     def __reduce__(self):
         return (object, ())
+
+
+class PrivateOracle(Oracle):
+    """What `random.Random(x)` builds while an Explorer with private=True is
+    running: a generator of its own whose draws are choice points as well (so
+    that code paths behind a private generator stay explorable); its creation
+    and seeding are logged as ('new', x, position) / ('pseed', x, position)."""
+    _private = True
+
+    def __init__(self, x=None):
+        xp = _CURRENT
+        if xp is None:
+            raise RuntimeError('PrivateOracle outside an exploration')
+        self._xp = xp
+        _REAL_RANDOM_CLASS.__init__(self, 0)
+        xp.events.append(('new', x if isinstance(x, (int, str, type(None), float)) else repr(x),
+                          len(xp.trace)))
+
+    def seed(self, a=None, version=2):
+        xp = getattr(self, '_xp', None)
+        if xp is not None and xp.active:
+            xp.events.append(('pseed', a if isinstance(a, (int, str, type(None), float))
+                              else repr(a), len(xp.trace)))
 
 
 # ---------------------------------------------------------------------------
@@ -259,7 +295,10 @@ def _monitor(code):
 class Explorer:
     def __init__(self, body, hashing=True, horizon=200, max_dev=None,
                  max_execs=None, on_result=None, stop_frame_code=None,
-                 default='zero', default_seed=0):
+                 default='zero', default_seed=0, private=False, on_partial=None):
+        self.private = private
+        self.on_partial = on_partial
+        self.private_draws = 0
         self.body = body
         self.hashing = hashing
         self.horizon = horizon
@@ -288,6 +327,9 @@ class Explorer:
                 saved[name] = getattr(_random, name)
                 setattr(_random, name, getattr(self.oracle, name))
         _random._inst = self.oracle
+        if self.private:
+            saved['Random'] = _random.Random
+            _random.Random = PrivateOracle
         self._saved = saved
 
     def _uninstall(self):
@@ -515,9 +557,13 @@ class Explorer:
                     self.on_result(x)
             elif x['status'] == 'cut':
                 st['cut'] += 1
+                if self.on_partial is not None:
+                    self.on_partial(x)
             else:
                 st['horizon'] += 1
                 st['cap_hit'] += 1
+                if self.on_partial is not None:
+                    self.on_partial(x)
             ch, ar = x['choices'], x['arity']
             dev = sum(1 for i, c in enumerate(ch[:len(prefix)]) if c != self._default(i, ar[i]))
             # push alternatives of the new points, deepest first so that the
@@ -554,8 +600,8 @@ def explore(body, on_result, **kw):
     return xp.run()
 
 
-def replay(body, choices):
-    return Explorer(body, hashing=False).replay(choices)
+def replay(body, choices, **kw):
+    return Explorer(body, hashing=False, **kw).replay(choices)
 
 
 # ---------------------------------------------------------------------------
